@@ -50,6 +50,12 @@ class List(Expression):
         staging = out.var('staging', [])
 
         with out.WHILE(True):
+            if self.max_len is not None and not str(self.max_len).isdigit():
+                # A symbolic upper bound may turn out to be zero (or already
+                # reached), so test it before parsing another element.
+                with out.IF(LEN(staging) >= Code(self.max_len)):
+                    out += BREAK
+
             if self.expr.can_partially_succeed():
                 checkpoint = out.var('checkpoint', POS)
 
